@@ -344,6 +344,17 @@ class Executor:
                         self.spec_mode = sm
                 state.pc = state.pc[:n] + [simp(z3.Not(g))]
                 continue
+            except Unsupported:
+                # an alternative outside the modelled subset is harmless only if its guard is refuted by the path
+                # condition *without* the guard itself (never leave the guard behind: it would make the whole state
+                # look infeasible to the caller)
+                state.pc = state.pc[:n]
+                if self.prove_quick(state, z3.Not(g), timeout_ms=1000):
+                    continue
+                raise
+            except BaseException:
+                state.pc = state.pc[:n]
+                raise
             new = state.pc[n + 1:]
             state.pc = state.pc[:n] + [z3.Implies(g, e) for e in new]
             results.append((g, r))
@@ -359,6 +370,9 @@ class Executor:
     # ------------------------------------------------------------------ length
     def length(self, state, v):
         def f(a):
+            if isinstance(a, VBytes) and not self.spec_mode:
+                from .ops import seq_len
+                return VInt(seq_len(self, state, a.t))
             if isinstance(a, (VBytes, VStr)):
                 return VInt(z3.Length(a.t))
             if isinstance(a, VABytes):
